@@ -7,7 +7,7 @@ from contracts import crystal_rt as R
 def main(tier):
     rep = Report('C21', tier)
     n = len(catalogue.builders(tier, SEED))
-    runner.run(rep, 'Crystal.jumpnetwork::contract', R.w_jumps, [(i, tier, SEED) for i in range(n)] + [('close-pairs', tier, SEED)], 'onsager/crystal.py::Crystal.jumpnetwork')
+    runner.run(rep, 'Crystal.jumpnetwork::contract', R.w_jumps, [(i, tier, SEED) for i in range(n)] + [('close-pairs', tier, SEED)] + [('extra:' + x, tier, SEED) for x in ('rutile-TiO', 'rutile-OTi', 'n-glide-special-positions-AB', 'n-glide-two-species')], 'onsager/crystal.py::Crystal.jumpnetwork')
     from vf import extract
     for q in ('Crystal.jumpnetwork', 'Crystal.jumpnetwork2lattice'):
         f = extract.get('onsager/crystal.py', q); rep.under_contract('onsager/crystal.py::' + q, 'onsager/crystal.py', f.l0, f.l1)
